@@ -339,6 +339,21 @@ func (e *Engine) selector(pa, pb *Term) *Term {
 	if len(rest) == 0 {
 		return pa
 	}
+	// a branch decision d with d in pa and not(d) in pb selects pa within
+	// pa \/ pb on its own: prefer it (smallest first) to the whole difference,
+	// which also contains the facts assumed along pa (callee postconditions,
+	// possibly quantified)
+	var best *Term
+	for _, t := range rest {
+		if inb[e.C.Not(t)] && !t.HasQuant() {
+			if best == nil || Size(t) < Size(best) {
+				best = t
+			}
+		}
+	}
+	if best != nil {
+		return best
+	}
 	return e.C.And(rest...)
 }
 
